@@ -29,6 +29,7 @@ func init() {
 		Run:       runC10,
 		Imports: []Import{
 			{From: "C08.b", Match: "tier-purged", As: "C10.h", Why: "the server answers from the Store read path: a pruned header must be gone from every tier, or it is served after deletion"},
+			{From: "C08.b", Match: "cache-purge-after-disk-delete", As: "C10.h", Why: "the server reads through the Store's caches: a header evicted from the cache before its removal from the datastore is re-cached by a reader in between (an OnDelete handler reading it is enough) and is served after it was pruned"},
 			{From: "C14.d", Match: "cache-purge", As: "C10.h", Why: "same: the parallel deletion path purges the caches the server reads through"},
 			{From: "C04.e", As: "C10.i", Why: "an OK answer is exactly the headers at origin, origin+1, …: the range read the server relies on hands back the whole requested range or an error, never a part of it"},
 		},
